@@ -55,9 +55,9 @@ func c16(c *ctx) {
 	}
 	c.run.Rule = "cases: (1) every sequence of <=3 AddRange(b,e), 0<=b<=e<=6, and every ordered pair of sets built from <=2 such insertions (enumerated completely); " +
 		"(2) random sequences of <=12 insertions over small universes, shifted universes and the neighbourhood of 0x10FFFF/0x110000 (peg's own use), with Complement limits at, inside and beyond the universe; " +
-		"(3) sequences containing inverted ranges (b>e, mathematically empty); (4) live sequences of 8-47 operations on three sets at once — AddRange/Add, single Has queries aimed at interval ends and their neighbours, Len, String, Copy, Union, Complement, Intersects, Equal in random order, every step compared with the model as it happens and all sets re-read at the end, so that observations happen BETWEEN mutations and results are mutated further. Every one-shot case compares Has on every point of the universe and a margin, Len, String, Copy (+aliasing), Complement, Union (both orders), Intersects (both orders), Equal (both orders) and re-reads operands, against a bit-vector model. " +
+		"(3) sequences containing inverted ranges (b>e, mathematically empty); (4) live sequences of 8-47 operations on three sets at once — AddRange/Add, single Has queries aimed at interval ends and their neighbours, Len, String, Copy, Union, Complement, Intersects, Equal in random order, every step compared with the model as it happens and all sets re-read at the end, so that observations happen BETWEEN mutations and results are mutated further. (5) sets among the 41 largest runes (rune is int32: math.MaxInt32 is a value every operation accepts), observed in full, their complement within [0, MaxInt32] observed through Len and that window, inserted into and read again. Every one-shot case compares Has on every point of the universe and a margin, Len, String, Copy (+aliasing), Complement, Union (both orders), Intersects (both orders), Equal (both orders) and re-reads operands, against a bit-vector model. " +
 		"distinct_nontrivial = distinct insertion sequences with >=2 insertions plus distinct ordered pairs of two non-empty sets plus distinct live sequences run to their end."
 	c.run.Extra["exhaustive_subspace"] = "universe 0..6: all sequences of <=3 insertions; all ordered pairs of sets from <=2 insertions"
 	c.run.Extra["exhaustive"] = false
-	c.run.Assume("elements are code points 0..0x110000 (non-negative runes); Complement(limit) is compared with {x in [0,limit] : x not in s}")
+	c.run.Assume("elements are non-negative runes (code points 0..0x110000, peg's own use, and the top of the int32 range); negative values are outside the domain; Complement(limit) is compared with {x in [0,limit] : x not in s}")
 }
